@@ -584,3 +584,139 @@ func (c *Ctx) Eval(t *Term, numVar func(string) float64, boolVar func(string) bo
 	}
 	return ev(t)
 }
+
+// EvalExact evaluates a term under an exact rational assignment (REAL semantics). ok=false
+// when the value cannot be computed exactly (uninterpreted function, division by zero,
+// missing variable).
+func (c *Ctx) EvalExact(t *Term, num func(string) (*big.Rat, bool), boolv func(string) (bool, bool)) (*big.Rat, bool, bool) {
+	type res struct {
+		r  *big.Rat
+		b  bool
+		ok bool
+	}
+	memo := map[*Term]res{}
+	var ev func(t *Term) res
+	ev = func(t *Term) res {
+		if m, ok := memo[t]; ok {
+			return m
+		}
+		var out res
+		out.ok = true
+		bin := func() (res, res, bool) {
+			x, y := ev(t.Args[0]), ev(t.Args[1])
+			return x, y, x.ok && y.ok
+		}
+		switch t.Op {
+		case OVar:
+			if t.Sort == SBool {
+				out.b, out.ok = boolv(t.Name)
+			} else {
+				out.r, out.ok = num(t.Name)
+			}
+		case OConstB:
+			out.b = t.B
+		case OConstN:
+			out.r = new(big.Rat)
+			if out.r.SetFloat64(t.F) == nil {
+				out.ok = false
+			}
+		case OAdd, OSub, OMul, ODiv, OLt, OLe, OEq:
+			x, y, ok := bin()
+			if !ok {
+				out.ok = false
+				break
+			}
+			switch t.Op {
+			case OAdd:
+				out.r = new(big.Rat).Add(x.r, y.r)
+			case OSub:
+				out.r = new(big.Rat).Sub(x.r, y.r)
+			case OMul:
+				out.r = new(big.Rat).Mul(x.r, y.r)
+			case ODiv:
+				if y.r.Sign() == 0 {
+					out.ok = false
+				} else {
+					out.r = new(big.Rat).Quo(x.r, y.r)
+				}
+			case OLt:
+				out.b = x.r.Cmp(y.r) < 0
+			case OLe:
+				out.b = x.r.Cmp(y.r) <= 0
+			case OEq:
+				out.b = x.r.Cmp(y.r) == 0
+			}
+		case ONeg:
+			x := ev(t.Args[0])
+			if !x.ok {
+				out.ok = false
+				break
+			}
+			out.r = new(big.Rat).Neg(x.r)
+		case OAbs:
+			x := ev(t.Args[0])
+			if !x.ok {
+				out.ok = false
+				break
+			}
+			out.r = new(big.Rat).Abs(x.r)
+		case OFloor, ORound:
+			x := ev(t.Args[0])
+			if !x.ok {
+				out.ok = false
+				break
+			}
+			fl := func(r *big.Rat) *big.Rat {
+				q := new(big.Int)
+				m := new(big.Int)
+				q.DivMod(r.Num(), r.Denom(), m) // Euclidean: floor for positive denominators
+				return new(big.Rat).SetInt(q)
+			}
+			if t.Op == OFloor {
+				out.r = fl(x.r)
+			} else {
+				half := big.NewRat(1, 2)
+				if x.r.Sign() >= 0 {
+					out.r = fl(new(big.Rat).Add(x.r, half))
+				} else {
+					out.r = new(big.Rat).Neg(fl(new(big.Rat).Add(new(big.Rat).Neg(x.r), half)))
+				}
+			}
+		case ONot:
+			x := ev(t.Args[0])
+			out.b, out.ok = !x.b, x.ok
+		case OAnd:
+			x, y, ok := bin()
+			out.b, out.ok = x.b && y.b, ok
+			if x.ok && !x.b || y.ok && !y.b {
+				out.b, out.ok = false, true
+			}
+		case OOr:
+			x, y, ok := bin()
+			out.b, out.ok = x.b || y.b, ok
+			if x.ok && x.b || y.ok && y.b {
+				out.b, out.ok = true, true
+			}
+		case OBEq:
+			x, y, ok := bin()
+			out.b, out.ok = x.b == y.b, ok
+		case OIte:
+			cnd := ev(t.Args[0])
+			if !cnd.ok {
+				out.ok = false
+				break
+			}
+			if cnd.b {
+				out = ev(t.Args[1])
+			} else {
+				out = ev(t.Args[2])
+			}
+		default:
+			out.ok = false
+		}
+		memo[t] = out
+		return out
+	}
+	r := ev(t)
+	return r.r, r.b, r.ok
+}
